@@ -498,7 +498,38 @@ def command_bytes(tag: bytes, c) -> bytes:
         return tag + b' SUBSCRIBE ' + mbx_name(c[1]) + b'\r\n'
     if k == 'unsubscribe':
         return tag + b' UNSUBSCRIBE ' + mbx_name(c[1]) + b'\r\n'
+    if k == 'delete':
+        return tag + b' DELETE ' + mbx_name(c[1]) + b'\r\n'
     raise ValueError(c)
+
+
+def folder_dir(userdir: str, layout: str, parts) -> str:
+    if not parts:
+        return userdir
+    if layout == '++':
+        return os.path.join(userdir, '.' + '.'.join(parts))
+    return os.path.join(userdir, *parts)
+
+
+def deliver_key(cid: int) -> str:
+    return 'dlv%d.ext' % cid
+
+
+def deliver(base: str, layout: str, c) -> None:
+    """('deliver', folder, sub, info, cid): what a delivery agent does, through
+    the (traced) os calls of this process: write tmp/<key>, set its time, link it into
+    new/ or cur/, remove the tmp name."""
+    _k, parts, sub, info, cid = c
+    d = folder_dir(os.path.join(base, 'u1'), layout, parts)
+    key = deliver_key(cid)
+    tmp = os.path.join(d, 'tmp', key)
+    fd = os.open(tmp, os.O_CREAT | os.O_EXCL | os.O_WRONLY, 0o600)
+    os.close(fd)
+    with open(tmp, 'rb+') as f:
+        f.write(message_bytes(cid))
+    os.utime(tmp, (1700000000, 1700000000))
+    os.link(tmp, os.path.join(d, sub, key + (':' + info if info else '')))
+    os.remove(tmp)
 
 
 def status_of(tag: bytes, resp: bytes) -> str:
@@ -526,7 +557,11 @@ async def run_history(base: str, layout: str, history: list, *,
         tag = b'h%d' % i
         if tracer is not None:
             tracer.enabled = True
-        resp = await conn.send(command_bytes(tag, c))
+        if c[0] == 'deliver':
+            deliver(base, layout, c)
+            resp = tag + b' OK delivered\r\n'
+        else:
+            resp = await conn.send(command_bytes(tag, c))
         if tracer is not None:
             tracer.enabled = False
         st = status_of(tag, resp)
@@ -572,8 +607,10 @@ async def dump_server(env, *, fast_sleep: bool = True) -> dict:
     conn = await env.login()
     res: dict = {'folders': {}, 'errors': []}
     r = await conn.send(b'd1 LIST "" *\r\n')
-    names = re.findall(rb'\* LIST \([^)]*\) (?:"[^"]*"|NIL) (.*?)\r\n', r)
-    res['list'] = sorted(n.decode('latin-1').strip('"') for n in names)
+    names = re.findall(rb'\* LIST \(([^)]*)\) (?:"[^"]*"|NIL) (.*?)\r\n', r)
+    # (a \Noselect name is the missing parent of a listed child, not a mailbox)
+    res['list'] = sorted(n.decode('latin-1').strip('"') for fl, n in names
+                         if b'\\Noselect' not in fl)
     r = await conn.send(b'd2 LSUB "" *\r\n')
     names2 = re.findall(rb'\* LSUB \([^)]*\) (?:"[^"]*"|NIL) (.*?)\r\n', r)
     res['lsub'] = sorted(n.decode('latin-1').strip('"') for n in names2)
@@ -688,11 +725,21 @@ def _child_reference(base: str, layout: str, history, out_path: str,
         for i, c in enumerate(history):
             tag = b'h%d' % i
             tr.enabled = True
-            resp = await conn.send(command_bytes(tag, c))
+            if c[0] == 'deliver':
+                deliver(base, layout, c)
+                resp = tag + b' OK delivered\r\n'
+            else:
+                resp = await conn.send(command_bytes(tag, c))
             tr.enabled = False
             evs = [_rel(base, e) for e in fill_writes(tr.take())]
             rec = {'cmd': c, 'resp': resp.decode('latin-1'), 'status': status_of(tag, resp),
                    'events': evs, 'exc': repr(conn.exc) if conn.exc else None}
+            if c[0] == 'deliver':
+                # no server has seen the file yet: what is acknowledged is the
+                # state before (a dump would adopt the file outside the trace)
+                rec['dump'] = recs[-1]['dump'] if recs else res['dump0']
+                recs.append(rec)
+                continue
             state = random.getstate()
             rec['dump'] = await dump_server(env)
             random.setstate(state)
